@@ -1,6 +1,7 @@
 import RuxModel.Drv.Common
 import RuxModel.Drv.Lru
 import RuxModel.Drv.Writer
+import RuxModel.Drv.Render
 /-
   Line-protocol driver: `driver <engine>` reads op lines on stdin and answers one line per op.
   Lines starting with `#` are echoed (they separate cases and carry comments).
@@ -23,7 +24,8 @@ partial def loop (e : Engine) (hin hout : IO.FS.Stream) (s : e.σ) : IO Unit := 
 
 def engines : List (String × Engine) := [
   ("lru", lruEngine),
-  ("writer", writerEngine)
+  ("writer", writerEngine),
+  ("render", renderEngine)
 ]
 
 def main (args : List String) : IO UInt32 := do
